@@ -76,7 +76,8 @@ def run(v):
         tr = os.path.join(d, "trace_%d.ndjson" % ci)
         p = run_bin("record", ["prim", tr, "seed=%d" % (v.seed * 7919 + ci), "histories=%d" % hist, "ops=12"])
         if p.returncode != 0:
-            raise ToolError("record prim failed: " + p.stderr[-2000:])
+            vlib.recorder_failed(v, p, tr, "record prim (seed %d)" % (v.seed * 7919 + ci))
+            break
         events += vlib.lint_trace(tr)
         tt = run_tlc("C10", "Trace_Prim", "SPECIFICATION Spec\nCONSTANTS\n  W7 = 7\n  W14 = 14\nPOSTCONDITION Accepted\nCHECK_DEADLOCK FALSE\n",
                      tag="trace_%d" % ci, workers=1, env={"TRACE": tr}, deque=True, xss=True, coverage=False, heap="4g")
